@@ -102,6 +102,16 @@ def make(kind, kwargs, hidden=None):
     if t == "mixed":      # the docstring example kind: (bool, nested list, float, str)
         return (bool(enc(kwargs, 0) & 1), _nest(kwargs, (2, 3), 1), float(enc(kwargs, 2)),
                 "v%012x" % enc(kwargs, 3))
+    if t in ("datasetnc", "dataarraync"):
+        # labelled data over an internal dim 't' WITHOUT its own coordinate (a constant may supply it)
+        import numpy as np
+        import xarray as xr
+        n = int(k[1]) if len(k) > 1 else 3
+        x = float(enc(kwargs, "x"))
+        y = np.array([float(enc(kwargs, "y", i)) for i in range(n)])
+        if t == "dataarraync":
+            return xr.DataArray(y, dims=("t",), name="y")
+        return xr.Dataset({"x": x, "y": (("t",), y)})
     if t in ("dict", "dataset", "dataarray"):
         # x: scalar, y: 1-d over internal dim 't' of length n (coords 0..n-1 scaled by 10)
         import numpy as np
